@@ -1,6 +1,7 @@
 import Holpy.Common.Sexp
 import Holpy.C17.Model
 import Holpy.C17.HolModel
+import Holpy.C17.PfModel
 /-
 Line protocol for the C17 model: one whole operation sequence per line, run from the empty
 structure; the answer lists the canonical output of every operation.
@@ -17,6 +18,12 @@ structure; the answer lists the canonical output of every operation.
     (test S T)              -> (T|F|(err ..) (tab ...))
     (explain S T)           -> (RES (tab ...))           RES as above, over the wrapper's constants
   TERM = n (atom) | (F X) (application)
+
+  (holp POP ...)  a history of the wrapper with proof terms (PfModel.lean), POP =
+    (merge S T PT)          -> ok        PT = - (no pt=) | PF (the proof term given as pt=)
+    (add S) | (test S T)    -> ok        (test enters its two arguments)
+    (explain S T)           -> PF | (err KIND)   the ProofTerm tree assembled by get_proofterm
+  PF = (assume S T) | (gap S T)   [gap = holpy's ProofTerm.sorry] | (reflexive S) | (symmetric PF) | (transitive PF PF) | (combination PF PF)
 -/
 open Holpy Holpy.C17
 
@@ -135,8 +142,62 @@ def runHol : WState → List Sexp → List Sexp → Option (List Sexp)
       | _, _ => none
     | _ => none
 
+partial def pfOf : Sexp → Option EqPf
+  | .list [.atom "assume", s, t] => do some (.hyp (← termOf s) (← termOf t))
+  | .list [.atom "gap", s, t] => do some (.gap (← termOf s) (← termOf t))
+  | .list [.atom "reflexive", t] => do some (.refl (← termOf t))
+  | .list [.atom "symmetric", p] => do some (.symm (← pfOf p))
+  | .list [.atom "transitive", p, q] => do some (.trans (← pfOf p) (← pfOf q))
+  | .list [.atom "combination", p, q] => do some (.comb (← pfOf p) (← pfOf q))
+  | _ => none
+
+def pfTo : EqPf → Sexp
+  | .hyp s t => .list [.atom "assume", termTo s, termTo t]
+  | .gap s t => .list [.atom "gap", termTo s, termTo t]
+  | .refl t => .list [.atom "reflexive", termTo t]
+  | .symm p => .list [.atom "symmetric", pfTo p]
+  | .trans p q => .list [.atom "transitive", pfTo p, pfTo q]
+  | .comb p q => .list [.atom "combination", pfTo p, pfTo q]
+
+def runHolP : PState → List Sexp → List Sexp → Option (List Sexp)
+  | _, [], acc => some acc.reverse
+  | p, op :: rest, acc =>
+    match op with
+    | .list [.atom "add", s] =>
+      match termOf s with
+      | some s => runHolP (applyPOp p (.add s)) rest (.atom "ok" :: acc)
+      | none => none
+    | .list [.atom "merge", s, t, pt] =>
+      match termOf s, termOf t with
+      | some s, some t =>
+        match pt with
+        | .atom "-" => runHolP (pmerge p s t none) rest (.atom "ok" :: acc)
+        | _ =>
+          match pfOf pt with
+          | some q => runHolP (pmerge p s t (some q)) rest (.atom "ok" :: acc)
+          | none => none
+      | _, _ => none
+    | .list [.atom "test", s, t] =>
+      match termOf s, termOf t with
+      | some s, some t => runHolP (applyPOp (applyPOp p (.add s)) (.add t)) rest (.atom "ok" :: acc)
+      | _, _ => none
+    | .list [.atom "explain", s, t] =>
+      match termOf s, termOf t with
+      | some s, some t =>
+        let r := pexplain p s t
+        let o := match r.2 with
+          | .ok v => pfTo v.2
+          | .error e => errTo e
+        runHolP r.1 rest (o :: acc)
+      | _, _ => none
+    | _ => none
+
 def handle (line : String) : String :=
   match Sexp.parse line with
+  | some (.list (.atom "holp" :: hops)) =>
+    match runHolP PState.init hops [] with
+    | some outs => toString (Sexp.list outs)
+    | none => "bad-op"
   | some (.list (.atom "hol" :: hops)) =>
     match runHol WState.init hops [] with
     | some outs => toString (Sexp.list outs)
